@@ -567,8 +567,8 @@ def name_too_long_mech(cell):
     return []
 
 
-def run_c17_keys(rng, ncells, root, viol, cnt):
-    cells = gen_cells_c17(rng, ncells)
+def run_c17_keys(rng, ncells, root, viol, cnt, cells=None):
+    cells = gen_cells_c17(rng, ncells) if cells is None else cells
     reports = []
     seeds = ['0', '1', str(rng.randrange(2, 4000000)), 'random']
     for j, hs in enumerate(seeds):
@@ -606,8 +606,8 @@ def run_c17_keys(rng, ncells, root, viol, cnt):
     return cells, nontrivial
 
 
-def run_c17_sessions(rng, ncells, root, viol, cnt, directed=False):
-    cells = gen_cells_c17(rng, ncells, with_backend=True)
+def run_c17_sessions(rng, ncells, root, viol, cnt, directed=False, cells=None):
+    cells = gen_cells_c17(rng, ncells, with_backend=True) if cells is None else cells
     if directed:
         cells.append(copy.deepcopy(DIRECTED_LONG_CELL))
         cnt['directed_cases'] = cnt.get('directed_cases', 0) + 1
@@ -716,7 +716,19 @@ def run_shard(prop, tier, seed, shard, nshards, opts):
 def replay(v, prop):
     if prop == 'C04':
         return run_case_c04(v['case'])[0]
-    return []
+    cell = (v.get('case') or {}).get('cell')
+    if not cell:
+        return []
+    viol, cnt = [], {}
+    import random as _r
+    rng = _r.Random(0)
+    with Scratch('c17r') as root:
+        if 'session' in v.get('kind', ''):
+            cell = dict(cell)
+            run_c17_sessions(rng, 0, root, viol, cnt, cells=[cell])
+        else:
+            run_c17_keys(rng, 0, root, viol, cnt, cells=[cell])
+    return viol
 
 
 if __name__ == '__main__':
